@@ -147,7 +147,7 @@ func init() {
 
 type c20step struct{ op, h, rnd int }
 
-var c20opNames = []string{"New(prefix,{memory})", "New(prefix,{cpu,memory,pids})", "h.New(child)", "h.Random(r*)", "h.Nest(n)", "OpenExisting(prefix)", "AddProc(helper)", "SetMemoryLimit", "SetProcLimit", "SetCPUBandwidth", "Destroy", "h.New(planted) [sub-group pre-existing under the memory hierarchy only]"}
+var c20opNames = []string{"New(prefix,{memory})", "New(prefix,{cpu,memory,pids})", "h.New(child)", "h.Random(r*)", "h.Nest(n)", "OpenExisting(prefix)", "AddProc(helper)", "SetMemoryLimit", "SetProcLimit", "SetCPUBandwidth", "Destroy", "h.New(planted) [sub-group pre-existing under the memory hierarchy only]", "New(prefix,{memory}) that must fail [v2: controller cannot be enabled; v1: final name with a newline below the prefix]"}
 
 // c20sequenceChoices makes the choices of one operation sequence; ok=false: the sequence is not well formed
 func c20sequenceChoices(x *mc.X, maxOps int) (steps []c20step, ok bool) {
@@ -156,7 +156,7 @@ func c20sequenceChoices(x *mc.X, maxOps int) (steps []c20step, ok bool) {
 	for i := 0; i < n; i++ {
 		op := x.Choose(len(c20opNames), "op")
 		s := c20step{op: op}
-		if op >= 2 && op != 5 {
+		if op >= 2 && op != 5 && op != 12 {
 			if nh == 0 {
 				return nil, false
 			}
@@ -165,7 +165,7 @@ func c20sequenceChoices(x *mc.X, maxOps int) (steps []c20step, ok bool) {
 		if op == 3 {
 			s.rnd = x.Choose(2, "random-value")
 		}
-		if op <= 5 || op == 11 {
+		if op <= 5 || op == 11 || op == 12 {
 			nh++
 		}
 		steps = append(steps, s)
@@ -174,7 +174,7 @@ func c20sequenceChoices(x *mc.X, maxOps int) (steps []c20step, ok bool) {
 }
 
 func c20sequence(x *mc.X, maxOps int) {
-	opNames := []string{"New(prefix,{memory})", "New(prefix,{cpu,memory,pids})", "h.New(child)", "h.Random(r*)", "h.Nest(n)", "OpenExisting(prefix)", "AddProc(helper)", "SetMemoryLimit", "SetProcLimit", "SetCPUBandwidth", "Destroy", "h.New(planted) [sub-group pre-existing under the memory hierarchy only]"}
+	opNames := []string{"New(prefix,{memory})", "New(prefix,{cpu,memory,pids})", "h.New(child)", "h.Random(r*)", "h.Nest(n)", "OpenExisting(prefix)", "AddProc(helper)", "SetMemoryLimit", "SetProcLimit", "SetCPUBandwidth", "Destroy", "h.New(planted) [sub-group pre-existing under the memory hierarchy only]", "New(prefix,{memory}) that must fail [v2: controller cannot be enabled; v1: final name with a newline below the prefix]"}
 	steps, ok := c20sequenceChoices(x, maxOps)
 	if !ok {
 		x.Outcome("n/a:no-handle-yet")
@@ -183,7 +183,7 @@ func c20sequence(x *mc.X, maxOps int) {
 	var desc []string
 	for _, s := range steps {
 		d := opNames[s.op]
-		if s.op >= 2 && s.op != 5 {
+		if s.op >= 2 && s.op != 5 && s.op != 12 {
 			d += fmt.Sprintf("[h%d]", s.h)
 		}
 		if s.op == 3 {
@@ -254,9 +254,47 @@ func c20sequence(x *mc.X, maxOps int) {
 		return m
 	}
 	randVals := []string{"7", "8"}
+	// whatever the operation and whether or not it succeeds: no group that existed before it may disappear, except the
+	// group of the handle being destroyed
+	var prevBefore map[string]bool
+	var prevMayRemove []string
+	checkRemoved := func(i int, before, after map[string]bool, mayRemove []string) {
+		for p := range before {
+			if after[p] {
+				continue
+			}
+			ok := false
+			for _, m := range mayRemove {
+				if m == p {
+					ok = true
+				}
+			}
+			if !ok {
+				x.Failf("C20/seq/operation-removed-existing-group", "%s: %s existed before the operation and is gone after it", ctx(i), p)
+			}
+		}
+	}
 	for i, s := range steps {
 		before := snapshot()
+		checkRemoved(i-1, prevBefore, before, prevMayRemove)
+		var mayRemove []string // directories this step is entitled to remove
+		if s.op == 10 && !handles[s.h].dead {
+			mayRemove = cgroup.VerifPaths(handles[s.h].cg)
+		}
+		prevBefore, prevMayRemove = before, mayRemove
 		switch s.op {
+		case 12:
+			var cg cgroup.Cgroup
+			var err error
+			if c20v2 {
+				cg, err = cgroup.New(prefix, &cgroup.Controllers{Memory: true})
+			} else {
+				cg, err = cgroup.New(prefix+"/bad\nname", &cgroup.Controllers{Memory: true})
+			}
+			if err == nil {
+				x.Failf("C20/harness", "%s: the New that was built to fail succeeded", ctx(i))
+			}
+			add(i, cg, prefix, before, err)
 		case 0, 1:
 			ct := &cgroup.Controllers{Memory: true}
 			if s.op == 1 {
@@ -414,6 +452,7 @@ func c20sequence(x *mc.X, maxOps int) {
 	}
 	x.Count(int64(len(steps)))
 	tree := snapshot()
+	checkRemoved(len(steps)-1, prevBefore, tree, prevMayRemove)
 	var dirs []string
 	for p := range tree {
 		dirs = append(dirs, strings.TrimPrefix(p, "/sys/fs/cgroup/"))
